@@ -27,6 +27,9 @@ func (in *Interp) foreign(fn *types.Func, recv Value, x *ast.CallExpr) []Value {
 			if cause == "" {
 				cause = ev.Tag
 			}
+			if cause == "?" {
+				return []Value{&ErrVal{NonNil: ev.NonNil, Cause: "?", CauseG: errCauseConds(ev)}}
+			}
 			return []Value{&ErrVal{NonNil: ev.NonNil, Cause: cause}}
 		}
 		return []Value{asErr(in.expr(x.Args[0]))}
@@ -35,6 +38,9 @@ func (in *Interp) foreign(fn *types.Func, recv Value, x *ast.CallExpr) []Value {
 			tag := ev.Cause
 			if tag == "" {
 				tag = ev.Tag
+			}
+			if tag == "?" {
+				return []Value{&ErrVal{NonNil: ev.NonNil, Tag: "?", TagG: errCauseConds(ev)}}
 			}
 			return []Value{&ErrVal{NonNil: ev.NonNil, Tag: tag}}
 		}
@@ -185,6 +191,34 @@ func (in *Interp) foreign(fn *types.Func, recv Value, x *ast.CallExpr) []Value {
 					if t, ok := in.OpaqueDesc[id1]; ok && t.Kind == "hexchar" && len(t.Inputs) == 1 && len(t.Inputs[0]) == 1 {
 						bk.E = append(bk.E, &Cell{t.Inputs[0][0]})
 						continue
+					}
+				}
+			}
+			// two constant characters decode concretely
+			if c1, ok1 := chars[i].(*Bits); ok1 {
+				if c2, ok2 := chars[i+1].(*Bits); ok2 {
+					if k1, isC1 := in.D.ConstVal(c1); isC1 {
+						if k2, isC2 := in.D.ConstVal(c2); isC2 {
+							hv := func(c int64) int64 {
+								switch {
+								case c >= '0' && c <= '9':
+									return c - '0'
+								case c >= 'a' && c <= 'f':
+									return c - 'a' + 10
+								case c >= 'A' && c <= 'F':
+									return c - 'A' + 10
+								}
+								return -1
+							}
+							h, l := hv(k1), hv(k2)
+							if h < 0 || l < 0 {
+								invalid = True
+								bk.E = append(bk.E, &Cell{in.D.Const(0, 8, false)})
+							} else {
+								bk.E = append(bk.E, &Cell{in.D.Const(h<<4|l, 8, false)})
+							}
+							continue
+						}
 					}
 				}
 			}
@@ -733,9 +767,37 @@ func (in *Interp) hexDecodeChars(chars []Value) ([]Value, Node) {
 				}
 			}
 		}
+		if c1, ok1 := chars[i].(*Bits); ok1 {
+			if c2, ok2 := chars[i+1].(*Bits); ok2 {
+				if k1, isC1 := in.D.ConstVal(c1); isC1 {
+					if k2, isC2 := in.D.ConstVal(c2); isC2 {
+						h, l := hexDigit(k1), hexDigit(k2)
+						if h < 0 || l < 0 {
+							invalid = True
+							out = append(out, in.D.Const(0, 8, false))
+						} else {
+							out = append(out, in.D.Const(h<<4|l, 8, false))
+						}
+						continue
+					}
+				}
+			}
+		}
 		o := in.OpaqueBytes("hexval", [][]Value{{chars[i], chars[i+1]}}, 2, "hex value / validity")
 		out = append(out, o[0])
 		invalid = in.D.M.Or(invalid, o[1].(*Bits).Bits()[0])
 	}
 	return out, invalid
+}
+
+func hexDigit(c int64) int64 {
+	switch {
+	case c >= '0' && c <= '9':
+		return c - '0'
+	case c >= 'a' && c <= 'f':
+		return c - 'a' + 10
+	case c >= 'A' && c <= 'F':
+		return c - 'A' + 10
+	}
+	return -1
 }
